@@ -424,4 +424,309 @@ theorem parseDb_ok (mem : Bytes) (d : DbImg) (mdata : Bytes) (h : WfDbImg mem.le
     simp only [Holds] at hm
     rw [metaOf, slice, Nat.min_eq_left this, slice_ofBytes _ _ _ hm.1, hm.2]
 
+/-! ### a database (list of nodes with levels and records) placed by a layout -/
+
+theorem recWrites_mkNode_mem (p : NodePlace) (lvl : Nat) (n : List Nat) (p0 : Nat) (recs : List (Bytes × Bytes))
+    (w : Nat × Bytes) (hw : w ∈ recWrites (mkNode p lvl n p0 recs)) :
+    ∃ off, w.1 = p.kblk * bs + 2 ^ p.szpow - off ∧ w.2.length ≤ off ∧ off ≤ total (recs.map fun r => encKv r.1 r.2) := by
+  obtain ⟨i, hi, rfl⟩ := List.mem_iff_getElem.1 hw
+  rw [length_recWrites_mkNode] at hi
+  obtain ⟨off, h1, _, h3, h4⟩ := recWrites_mkNode_get p lvl n p0 recs i hi
+  rw [List.getElem?_eq_getElem (by rw [length_recWrites_mkNode]; exact hi)] at h1
+  simp only [Option.some.injEq] at h1
+  exact ⟨off, by rw [h1], by rw [h1]; exact h3, h4⟩
+
+/-- a store lies inside a region -/
+def inside (w : Nat × Bytes) (r : Nat × Nat) : Prop := r.1 ≤ w.1 ∧ w.1 + w.2.length ≤ r.2
+
+/-- two regions do not overlap -/
+def disj (a b : Nat × Nat) : Prop := a.2 ≤ b.1 ∨ b.2 ≤ a.1
+
+/-- two stores do not overlap -/
+def wdisj (a b : Nat × Bytes) : Prop := a.1 + a.2.length ≤ b.1 ∨ b.1 + b.2.length ≤ a.1
+
+theorem wdisj_of_inside {a b : Nat × Bytes} {r s : Nat × Nat} (ha : inside a r) (hb : inside b s) (h : disj r s) :
+    wdisj a b := by
+  simp only [inside, disj, wdisj] at *; omega
+
+theorem nodeWrites_inside (size : Nat) (p : NodePlace) (lvl : Nat) (n : List Nat) (p0 : Nat) (recs : List (Bytes × Bytes))
+    (h : NodeFits size p lvl n p0 recs) (w : Nat × Bytes) (hw : w ∈ nodeWrites (mkNode p lvl n p0 recs)) :
+    ∃ r ∈ nodeRegions p, inside w r := by
+  have hwf := mkNode_wf size p lvl n p0 recs h
+  have hsw := sblkWrites_wf _ hwf.srec
+  have hil := encKvIndex_length (mkNode p lvl n p0 recs).toKvIndex
+  have hfit := h.fits
+  have hfit' : (encSlots (mkNode p lvl n p0 recs).slots).length = (encSlots (layoutSlots recs)).length := rfl
+  have hblk : (mkNode p lvl n p0 recs).blk = p.blk := rfl
+  have hkblk : (mkNode p lvl n p0 recs).kblk = p.kblk := rfl
+  simp only [nodeWrites, shift, List.mem_append, List.mem_map, List.mem_cons] at hw
+  rcases hw with ⟨x, hx, rfl⟩ | rfl | hw
+  · refine ⟨(p.blk * bs, p.blk * bs + Gen.SBLK_SZ), by simp [nodeRegions], ?_⟩
+    have := hsw.1 x hx
+    simp only [inside, hblk]; omega
+  · refine ⟨(p.kblk * bs, p.kblk * bs + 2 ^ p.szpow), by simp [nodeRegions], ?_⟩
+    simp only [inside, hkblk, hil, hfit']; omega
+  · refine ⟨(p.kblk * bs, p.kblk * bs + 2 ^ p.szpow), by simp [nodeRegions], ?_⟩
+    obtain ⟨off, h1, h2, h3⟩ := recWrites_mkNode_mem p lvl n p0 recs w hw
+    simp only [inside]; omega
+
+/-- per-node conditions: what `NodeFits` asks, apart from links and placement -/
+structure PNodeFits (x : PNode) : Prop where
+  cnt : x.recs.length ≤ Gen.KVBLK_IDXNUM
+  lvl_lt : x.lvl < Gen.SLEVELS
+  blk_lt : x.place.blk < 2 ^ 32
+  kblk_lt : x.place.kblk < 2 ^ 32
+  bpos_lt : x.place.bpos < 256
+  blk_ne : x.place.blk ≠ 0
+  keys : ∀ r ∈ x.recs, Bytes.wf r.1
+  kvsz : ∀ r ∈ x.recs, (encKv r.1 r.2).length ≤ Gen.IWKV_MAX_KVSZ
+  szpow : x.place.szpow ≤ 40
+  fits : Gen.KVBLK_HDRSZ + (encSlots (layoutSlots x.recs)).length + total (x.recs.map fun r => encKv r.1 r.2) ≤ 2 ^ x.place.szpow
+
+/-- a database (nodes with levels and records, as in `Kv.Db`) and a layout that can hold it in a file of `size`
+bytes: numbers within the C types, every node fits its data block, all regions inside the file and pairwise
+disjoint -/
+structure DbFits (size : Nat) (dp : DbPlace) (flags id next : Nat) (mdata : Bytes) (ns : List PNode) : Prop where
+  size_lt : size < 2 ^ 40
+  flags_lt : flags < 256
+  id_lt : id < 2 ^ 32
+  next_lt : next < 2 ^ 32
+  blk_lt : dp.blk < 2 ^ 32
+  metaBlk_lt : dp.metaBlk < 2 ^ 32
+  metaBlkn_lt : dp.metaBlkn < 2 ^ 32
+  mdata_len : mdata.length ≤ dp.metaBlkn * bs
+  nodes : ∀ x ∈ ns, PNodeFits x
+  regions_in : ∀ r ∈ dbRegions dp mdata.length ns, r.2 ≤ size
+  regions : (dbRegions dp mdata.length ns).Pairwise disj
+
+theorem nextAt_lt (i : Nat) (rest : List PNode) (h : ∀ y ∈ rest, y.place.blk < 2 ^ 32) : nextAt i rest < 2 ^ 32 := by
+  simp only [nextAt]
+  cases hf : rest.find? (·.lvl ≥ i) with
+  | none => simp
+  | some y => simpa using h y (List.mem_of_find?_eq_some hf)
+
+theorem nextAt_zero_cons (x : PNode) (rest : List PNode) : nextAt 0 (x :: rest) = x.place.blk := by
+  simp [nextAt]
+
+/-- what the layout says about one node -/
+structure NodeIn (size : Nat) (x : PNode) : Prop where
+  fitsP : PNodeFits x
+  node_in : x.place.blk * bs + Gen.SBLK_SZ ≤ size
+  data_in : x.place.kblk * bs + 2 ^ x.place.szpow ≤ size
+  apart : x.place.blk * bs + Gen.SBLK_SZ ≤ x.place.kblk * bs ∨ x.place.kblk * bs + 2 ^ x.place.szpow ≤ x.place.blk * bs
+
+theorem nodeFits_of (size : Nat) (x : PNode) (n : List Nat) (p0 : Nat) (h : NodeIn size x)
+    (hn : n.length = x.lvl + 1) (hnl : ∀ y ∈ n, y < 2 ^ 32) (hp : p0 < 2 ^ 32) :
+    NodeFits size x.place x.lvl n p0 x.recs :=
+  ⟨h.fitsP.cnt, h.fitsP.lvl_lt, hn, hnl, hp, h.fitsP.kblk_lt, h.fitsP.bpos_lt, h.fitsP.blk_ne, h.fitsP.keys, h.fitsP.kvsz,
+    h.fitsP.szpow, h.fitsP.fits, h.node_in, h.data_in, h.apart⟩
+
+theorem mkNodes_spec (size : Nat) (prev : Nat) (ns : List PNode) (hp : prev < 2 ^ 32) (h : ∀ x ∈ ns, NodeIn size x)
+    (s : Sblk) (hs : s ∈ mkNodes prev ns) :
+    ∃ x ∈ ns, ∃ n p0, s = mkNode x.place x.lvl n p0 x.recs ∧ NodeFits size x.place x.lvl n p0 x.recs := by
+  induction ns generalizing prev with
+  | nil => simp [mkNodes] at hs
+  | cons x rest ih =>
+    simp only [mkNodes, List.mem_cons] at hs
+    rcases hs with rfl | hs
+    · refine ⟨x, by simp, _, _, rfl, nodeFits_of size x _ _ (h x (by simp)) (by simp) ?_ hp⟩
+      intro y hy
+      simp only [List.mem_map, List.mem_range] at hy
+      obtain ⟨i, _, rfl⟩ := hy
+      exact nextAt_lt i rest fun z hz => (h z (by simp [hz])).fitsP.blk_lt
+    · obtain ⟨y, hy, r⟩ := ih x.place.blk (h x (by simp)).fitsP.blk_lt (fun z hz => h z (by simp [hz])) hs
+      exact ⟨y, by simp [hy], r⟩
+
+theorem mkNodes_chain (prev : Nat) (ns : List PNode) : chainOk (nextAt 0 ns) (mkNodes prev ns) := by
+  induction ns generalizing prev with
+  | nil => simp [chainOk, mkNodes, nextAt]
+  | cons x rest ih =>
+    simp only [mkNodes, chainOk, nextAt_zero_cons]
+    refine ⟨rfl, ?_⟩
+    have : (mkNode x.place x.lvl ((List.range (x.lvl + 1)).map (nextAt · rest)) prev x.recs).n.headD 0 = nextAt 0 rest := by
+      simp [mkNode, List.range_succ_eq_map]
+    rw [this]
+    exact ih _
+
+theorem length_mkNodes (prev : Nat) (ns : List PNode) : (mkNodes prev ns).length = ns.length := by
+  induction ns generalizing prev with
+  | nil => rfl
+  | cons x rest ih => simp [mkNodes, ih]
+
+theorem mkNodes_recs (prev : Nat) (ns : List PNode) : (mkNodes prev ns).flatMap (·.recs) = ns.flatMap (·.recs) := by
+  induction ns generalizing prev with
+  | nil => rfl
+  | cons x rest ih => simp only [mkNodes, List.flatMap_cons, ih]; rfl
+
+theorem dbFits_regions (size : Nat) (dp : DbPlace) (flags id next : Nat) (mdata : Bytes) (ns : List PNode)
+    (h : DbFits size dp flags id next mdata ns) :
+    (∀ r ∈ ns.flatMap (fun x => nodeRegions x.place), disj (dp.blk * bs, dp.blk * bs + Gen.DOFF_END) r) ∧
+    disj (dp.blk * bs, dp.blk * bs + Gen.DOFF_END) (dp.metaBlk * bs, dp.metaBlk * bs + mdata.length) ∧
+    (∀ r ∈ ns.flatMap (fun x => nodeRegions x.place), disj (dp.metaBlk * bs, dp.metaBlk * bs + mdata.length) r) ∧
+    (∀ x ∈ ns, (nodeRegions x.place).Pairwise disj) ∧
+    ns.Pairwise (fun a b => ∀ r ∈ nodeRegions a.place, ∀ r' ∈ nodeRegions b.place, disj r r') := by
+  have := h.regions
+  simp only [dbRegions, List.pairwise_cons, List.pairwise_flatMap] at this
+  obtain ⟨h1, h2, h3, h4⟩ := this
+  exact ⟨fun r hr => h1 r (by simp only [List.mem_cons]; right; exact hr), h1 _ (by simp), h2, h3, h4⟩
+
+theorem dbFits_nodeIn (size : Nat) (dp : DbPlace) (flags id next : Nat) (mdata : Bytes) (ns : List PNode)
+    (h : DbFits size dp flags id next mdata ns) (x : PNode) (hx : x ∈ ns) : NodeIn size x := by
+  obtain ⟨_, _, _, h4, _⟩ := dbFits_regions size dp flags id next mdata ns h
+  have hin : ∀ r ∈ nodeRegions x.place, r.2 ≤ size := fun r hr =>
+    h.regions_in r (by simp only [dbRegions, List.mem_cons, List.mem_flatMap]; right; right; exact ⟨x, hx, hr⟩)
+  have h1 := hin (x.place.blk * bs, x.place.blk * bs + Gen.SBLK_SZ) (by simp [nodeRegions])
+  have h2 := hin (x.place.kblk * bs, x.place.kblk * bs + 2 ^ x.place.szpow) (by simp [nodeRegions])
+  have h3 := h4 x hx
+  simp only [nodeRegions, List.pairwise_cons, List.mem_cons, List.not_mem_nil, or_false, forall_eq, disj] at h3
+  exact ⟨h.nodes x hx, h1, h2, h3.1⟩
+
+theorem dbFits_fuel (size : Nat) (dp : DbPlace) (flags id next : Nat) (mdata : Bytes) (ns : List PNode)
+    (h : DbFits size dp flags id next mdata ns) : ns.length ≤ size / Gen.SBLK_SZ := by
+  obtain ⟨_, _, _, _, h5⟩ := dbFits_regions size dp flags id next mdata ns h
+  have hnd : (ns.map fun x => x.place.blk * bs / Gen.SBLK_SZ).Nodup := by
+    rw [List.nodup_iff_pairwise_ne, List.pairwise_map]
+    refine h5.imp ?_
+    intro a b hab
+    have := hab (a.place.blk * bs, a.place.blk * bs + Gen.SBLK_SZ) (by simp [nodeRegions])
+      (b.place.blk * bs, b.place.blk * bs + Gen.SBLK_SZ) (by simp [nodeRegions])
+    simp only [disj, Gen.SBLK_SZ] at this ⊢
+    omega
+  have hsub : (ns.map fun x => x.place.blk * bs / Gen.SBLK_SZ) ⊆ List.range (size / Gen.SBLK_SZ) := by
+    intro v hv
+    simp only [List.mem_map] at hv
+    obtain ⟨x, hx, rfl⟩ := hv
+    have := (dbFits_nodeIn size dp flags id next mdata ns h x hx).node_in
+    simp only [List.mem_range, Gen.SBLK_SZ] at this ⊢
+    omega
+  have := hnd.length_le_of_subset hsub
+  simpa using this
+
+theorem mkDb_writes (size : Nat) (dp : DbPlace) (flags id next : Nat) (mdata : Bytes) (ns : List PNode)
+    (h : DbFits size dp flags id next mdata ns) (hlen : (encDbHdr (mkDb dp flags id next ns).toDbHdr).length = Gen.DOFF_END) :
+    WfWrites size (dbWrites (mkDb dp flags id next ns) mdata) := by
+  obtain ⟨r1, r2, r3, _, r5⟩ := dbFits_regions size dp flags id next mdata ns h
+  have hin := dbFits_nodeIn size dp flags id next mdata ns h
+  have hspec := mkNodes_spec size dp.blk ns h.blk_lt hin
+  -- every node store lies in a region of its node
+  have hnode : ∀ s ∈ mkNodes dp.blk ns, ∀ w ∈ nodeWrites s, ∃ x ∈ ns, ∃ r ∈ nodeRegions x.place, inside w r := by
+    intro s hs w hw
+    obtain ⟨x, hx, n, p0, rfl, hf⟩ := hspec s hs
+    obtain ⟨r, hr, hi⟩ := nodeWrites_inside size _ _ _ _ _ hf w hw
+    exact ⟨x, hx, r, hr, hi⟩
+  have hhdr : inside (dp.blk * bs, encDbHdr (mkDb dp flags id next ns).toDbHdr) (dp.blk * bs, dp.blk * bs + Gen.DOFF_END) := by
+    simp only [inside, hlen]; omega
+  have hmeta : inside (dp.metaBlk * bs, mdata) (dp.metaBlk * bs, dp.metaBlk * bs + mdata.length) := by
+    simp only [inside]; omega
+  have hnodes : (mkDb dp flags id next ns).nodes = mkNodes dp.blk ns := rfl
+  have hmb : (mkDb dp flags id next ns).metaBlk = dp.metaBlk := rfl
+  have hb : (mkDb dp flags id next ns).blk = dp.blk := rfl
+  constructor
+  · intro w hw
+    simp only [dbWrites, hnodes, hmb, hb, List.mem_cons, List.mem_flatMap] at hw
+    rcases hw with rfl | rfl | ⟨s, hs, hw⟩
+    · have := h.regions_in (dp.blk * bs, dp.blk * bs + Gen.DOFF_END) (by simp [dbRegions])
+      simp only [hlen]; omega
+    · have := h.regions_in (dp.metaBlk * bs, dp.metaBlk * bs + mdata.length) (by simp [dbRegions])
+      simp only; omega
+    · obtain ⟨x, hx, r, hr, hi⟩ := hnode s hs w hw
+      have := h.regions_in r (by simp only [dbRegions, List.mem_cons, List.mem_flatMap]; right; right; exact ⟨x, hx, hr⟩)
+      simp only [inside] at hi; omega
+  · simp only [dbWrites, hnodes, hmb, hb]
+    rw [List.pairwise_cons, List.pairwise_cons, List.pairwise_flatMap]
+    refine ⟨?_, ?_, ?_, ?_⟩
+    · intro w hw
+      rcases List.mem_cons.1 hw with rfl | hw
+      · exact wdisj_of_inside hhdr hmeta r2
+      · simp only [List.mem_flatMap] at hw
+        obtain ⟨s, hs, hw⟩ := hw
+        obtain ⟨x, hx, r, hr, hi⟩ := hnode s hs w hw
+        exact wdisj_of_inside hhdr hi (r1 r (by simp only [List.mem_flatMap]; exact ⟨x, hx, hr⟩))
+    · intro w hw
+      simp only [List.mem_flatMap] at hw
+      obtain ⟨s, hs, hw⟩ := hw
+      obtain ⟨x, hx, r, hr, hi⟩ := hnode s hs w hw
+      exact wdisj_of_inside hmeta hi (r3 r (by simp only [List.mem_flatMap]; exact ⟨x, hx, hr⟩))
+    · intro s hs
+      obtain ⟨x, hx, n, p0, rfl, hf⟩ := hspec s hs
+      exact (mkNode_writes size _ _ _ _ _ hf).2
+    · -- stores of different nodes: by induction along the list
+      clear hspec hnode hhdr hnodes hb hlen
+      have key : ∀ (prev : Nat) (l : List PNode), prev < 2 ^ 32 → (∀ x ∈ l, NodeIn size x) →
+          l.Pairwise (fun a b => ∀ r ∈ nodeRegions a.place, ∀ r' ∈ nodeRegions b.place, disj r r') →
+          (mkNodes prev l).Pairwise (fun a b => ∀ x ∈ nodeWrites a, ∀ y ∈ nodeWrites b, wdisj x y) := by
+        intro prev l
+        induction l generalizing prev with
+        | nil => intro _ _ _; exact List.Pairwise.nil
+        | cons x rest ih =>
+          intro hp hl hpw
+          rw [List.pairwise_cons] at hpw
+          simp only [mkNodes, List.pairwise_cons]
+          refine ⟨?_, ih _ (hl x (by simp)).fitsP.blk_lt (fun z hz => hl z (by simp [hz])) hpw.2⟩
+          intro t ht a ha b hb'
+          obtain ⟨y, hy, n, p0, rfl, hf⟩ := mkNodes_spec size x.place.blk rest (hl x (by simp)).fitsP.blk_lt
+            (fun z hz => hl z (by simp [hz])) t ht
+          have hfx : NodeFits size x.place x.lvl ((List.range (x.lvl + 1)).map (nextAt · rest)) prev x.recs :=
+            nodeFits_of size x _ _ (hl x (by simp)) (by simp) (by
+              intro v hv
+              simp only [List.mem_map, List.mem_range] at hv
+              obtain ⟨i, _, rfl⟩ := hv
+              exact nextAt_lt i rest fun z hz => (hl z (by simp [hz])).fitsP.blk_lt) hp
+          obtain ⟨ra, hra, hia⟩ := nodeWrites_inside size _ _ _ _ _ hfx a ha
+          obtain ⟨rb, hrb, hib⟩ := nodeWrites_inside size _ _ _ _ _ hf b hb'
+          exact wdisj_of_inside hia hib (hpw.1 y hy ra hra rb hrb)
+      exact key dp.blk ns h.blk_lt hin r5
+
+theorem encDbHdr_length (d : DbHdr) (h : WfDbHdr d) : (encDbHdr d).length = Gen.DOFF_END := by
+  have hz : (zeros Gen.DOFF_END).length = Gen.DOFF_END := by simp [zeros]
+  rw [encDbHdr, encDbHdrOver, length_pokes _ _ (by rw [hz]; exact (dbHdrWrites_wf _ h).1), hz]
+
+theorem mkDb_hdr_wf (size : Nat) (dp : DbPlace) (flags id next : Nat) (mdata : Bytes) (ns : List PNode)
+    (h : DbFits size dp flags id next mdata ns) : WfDbHdr (mkDb dp flags id next ns).toDbHdr := by
+  have hin := dbFits_nodeIn size dp flags id next mdata ns h
+  have hblk : ∀ y ∈ ns, y.place.blk < 2 ^ 32 := fun y hy => (hin y hy).fitsP.blk_lt
+  refine ⟨h.flags_lt, h.id_lt, h.next_lt, ?_, by simp [mkDb], ?_, by simp [mkDb], ?_, h.metaBlk_lt, h.metaBlkn_lt⟩
+  · simp only [mkDb]
+    cases hl : ns.getLast? with
+    | none => simp
+    | some y => simpa using hblk y (List.mem_of_getLast? hl)
+  · intro v hv
+    simp only [mkDb, List.mem_map, List.mem_range] at hv
+    obtain ⟨i, _, rfl⟩ := hv
+    exact nextAt_lt i ns hblk
+  · intro v hv
+    simp only [mkDb, List.mem_map, List.mem_range] at hv
+    obtain ⟨i, _, rfl⟩ := hv
+    have h1 := List.length_filter_le (fun x : PNode => decide (x.lvl = i)) ns
+    have h2 := dbFits_fuel size dp flags id next mdata ns h
+    have h3 := h.size_lt
+    simp only [Gen.SBLK_SZ] at h2
+    omega
+
+/-- a database that fits its layout gives a well-formed image -/
+theorem mkDb_wf (size : Nat) (dp : DbPlace) (flags id next : Nat) (mdata : Bytes) (ns : List PNode)
+    (h : DbFits size dp flags id next mdata ns) : WfDbImg size (mkDb dp flags id next ns) mdata := by
+  have hhdr := mkDb_hdr_wf size dp flags id next mdata ns h
+  have hin := dbFits_nodeIn size dp flags id next mdata ns h
+  refine ⟨hhdr, ?_, ?_, ?_, h.mdata_len, mkDb_writes size dp flags id next mdata ns h (encDbHdr_length _ hhdr)⟩
+  · intro s hs
+    obtain ⟨x, _, n, p0, rfl, hf⟩ := mkNodes_spec size dp.blk ns h.blk_lt hin s hs
+    exact mkNode_wf size _ _ _ _ _ hf
+  · have : (mkDb dp flags id next ns).n.headD 0 = nextAt 0 ns := by
+      simp [mkDb, Gen.SLEVELS, List.range_succ_eq_map]
+    rw [this]
+    exact mkNodes_chain dp.blk ns
+  · have : (mkDb dp flags id next ns).nodes.length = ns.length := length_mkNodes dp.blk ns
+    rw [this]
+    exact dbFits_fuel size dp flags id next mdata ns h
+
+/-- the node of the key-value model (`Kv.Node`: level and records) -/
+def PNode.node (x : PNode) : Kv.Node Bytes Bytes := ⟨x.lvl, x.recs⟩
+
+theorem mkNodes_nodes (prev : Nat) (ns : List PNode) :
+    (mkNodes prev ns).map (fun s => (⟨s.lvl, s.recs⟩ : Kv.Node Bytes Bytes)) = ns.map PNode.node := by
+  induction ns generalizing prev with
+  | nil => rfl
+  | cons x rest ih => simp only [mkNodes, List.map_cons, ih]; rfl
+
 end IwModel.Format
